@@ -682,6 +682,9 @@ class Loader:
                                      app2server[app], app)
                     self.backend.delete(z.path.placement(app2server[app], app))
 
+                # The duplicate is repaired, cross check against what is left.
+                app2server[app] = correct_placement
+
         # Cross check that all apps in the model are recorded in placement.
         success = True
         for appname, app in six.iteritems(self.cell.apps):
